@@ -289,4 +289,60 @@ def run(repo):
                 raise AnalysisError('dro_to_roc: forall() without argument')
             judge(dr, 'scenario inequality holds over the scenario\'s own support', a, ['_A.sup_constr[%s]' % sv],
                   'the per-scenario robust inequality must be taken .forall(ambset.sup_constr[%s])' % sv)
+    # (z) adaptive rules inside an expectation with an explicit random term.  For a piece  a(x) + b'z  and a scenario
+    #     rule x_s(z) = x0 + X z, the random part of the scenario inequality is  b + X'a : the z-slope of `linear @ drule`
+    #     (the .raffine of that product) has to flow into the random coefficient handed to RoAffine(..).
+    _rule_slope_kept(repo, res)
     return res
+
+
+def _rule_slope_kept(repo, res):
+    fi = repo.func('dro.Model.dro_to_roc')
+    res.functions.add(fi.fq)
+    defs = {}
+    for n in walk_no_nested(fi.node):
+        if isinstance(n, ast.Assign):
+            for t in n.targets:
+                for x in ast.walk(t):
+                    if isinstance(x, ast.Name) and isinstance(x.ctx, ast.Store):
+                        defs.setdefault(x.id, []).append(n.value)
+        elif isinstance(n, ast.AugAssign) and isinstance(n.target, ast.Name):
+            defs.setdefault(n.target.id, []).append(n.value)
+
+    def closure(e, seen=None, depth=0):
+        seen = seen if seen is not None else set()
+        out = [e]
+        if depth > 6:
+            return out
+        for x in ast.walk(e):
+            if isinstance(x, ast.Name) and x.id not in seen:
+                seen.add(x.id)
+                for v in defs.get(x.id, []):
+                    out += closure(v, seen, depth + 1)
+        return out
+    calls = [n for n in walk_no_nested(fi.node) if isinstance(n, ast.Call) and isinstance(n.func, ast.Name) and
+             n.func.id == 'RoAffine' and len(n.args) >= 2]
+    if not calls:
+        raise AnalysisError('dro_to_roc: the RoAffine(<random part>, <deterministic part>, ..) of the scenario '
+                            'inequality was not found')
+    n_ok = 0
+    for c in calls:
+        cl = closure(c.args[0])
+        rule_names = {k for k, vs in defs.items() for v in vs if 'drule_list' in ntext(v) or 'rule_var' in ntext(v)}
+        rule_names |= {'drule'} if 'drule' in defs or any(
+            isinstance(x, ast.For) and 'drule' in ntext(x.target) for x in walk_no_nested(fi.node)) else set()
+
+        def from_rule(e):
+            return any(isinstance(x, ast.Name) and (x.id in rule_names) for y in closure(e) for x in ast.walk(y))
+        slope = any(isinstance(x, ast.Attribute) and x.attr == 'raffine' and from_rule(x.value)
+                    for y in cl for x in ast.walk(y))
+        res.inst({'function': fi.fq, 'random part': ntext(c.args[0])[:40], 'includes_rule_slope': slope}, slope)
+        n_ok += 1
+        if not slope:
+            res.fail(Finding(RULE, fi.fq, 'z-slope of the scenario rule dropped',
+                             'dro_to_roc builds the random part `%s` of the scenario inequality without the z-slope of the '
+                             'decision rule (the .raffine of <coefficients> @ drule): for affinely adaptive decisions inside '
+                             'an expectation with an explicit random term the worst case is under-estimated'
+                             % ntext(c.args[0])[:40], repo.where(fi, c), P))
+    if n_ok < 1:
+        raise AnalysisError('R32(z): nothing checked')
